@@ -32,6 +32,7 @@ For fractional items, use LP (greedy by value/weight ratio is optimal).
 For multiple constraints, use MILP or CP-SAT.
 """
 
+import sys
 from collections.abc import Sequence
 
 from solvor.types import Result, Status
@@ -101,7 +102,9 @@ def solve_knapsack(
 
     # Verify weight constraint (in case of scaling errors)
     total_weight = sum(weights[i] for i in selected)
-    if total_weight > capacity + 1e-9:
+    # allow only the float error of that sum (none for integral data): a fixed 1e-9 accepted overweight picks
+    allowance = 0.0 if scale == 1.0 else len(selected) * sys.float_info.epsilon * capacity
+    if total_weight > capacity + allowance:
         # Scaling caused infeasibility, fall back to greedy
         return _greedy_fallback(values, weights, capacity, minimize)
 
